@@ -94,6 +94,13 @@ def run(rep, tier):
             elif f["sn"] == "impl_register_callback" and not db.label.startswith("model32"):
                 check_refuse(rep, db, f, inst)
                 n["refuse"] += 1
+            elif f["sn"] == "impl_unregister_callback" and not db.label.startswith("model32"):
+                # a backend that cannot find every registered key leaves the entry point of a released owner callable
+                from .c12 import check_unregister_scan
+                try:
+                    check_unregister_scan(rep, db, f, inst, rule="R-C13-unregister")
+                except Inconclusive as ex:
+                    rep.inconclusive("R-C13-unregister", site(f), str(ex), inst)
     for label, style in styles:
         if style.get("search") == "ordered" and style.get("removal") == "unordered":
             rep.violation("R-C13-register", SB + "::unregister_callback [ordered search]", "register_callback's duplicate test is a binary search over callback_keys, but unregister_callback removes keys by swapping with the last "
